@@ -101,6 +101,32 @@ func (p *proxyObject) Type() types.Type {
 	return rv.Interface().(types.Type)
 }
 
+// proxyWriter lets native code (text/tabwriter, fmt.Fprintf) write into an engine-side io.Writer.
+type proxyWriter struct {
+	e   *Exec
+	val Iface
+}
+
+func (p *proxyWriter) Write(b []byte) (int, error) {
+	e := p.e
+	data := make([]Value, len(b))
+	for i, c := range b {
+		data[i] = e.tb.BV(8, uint64(c))
+	}
+	ms := e.w.prog.MethodSets.MethodSet(p.val.T)
+	for i := 0; i < ms.Len(); i++ {
+		if ms.At(i).Obj().Name() == "Write" {
+			r := e.callFrom(nil, e.w.prog.MethodValue(ms.At(i)), []Value{p.val.V, SliceV{Data: data}}).(Tuple)
+			n := int(e.concInt(r[0]))
+			if ei, ok := r[1].(Iface); ok && ei.T != nil {
+				return n, fmt.Errorf("engine writer error")
+			}
+			return n, nil
+		}
+	}
+	return 0, fmt.Errorf("no Write method")
+}
+
 // boxedValue carries an engine value through native interface{} slots.
 type boxedValue struct {
 	v Value
@@ -615,6 +641,9 @@ func (e *Exec) toNativeIface(v Value, rt reflect.Type) reflect.Value {
 		if e.hasMethod(ifc.T, "Error") {
 			return set(reflect.ValueOf(&proxyError{e: e, val: ifc}))
 		}
+	}
+	if rt.NumMethod() == 1 && rt.Method(0).Name == "Write" && e.hasMethod(ifc.T, "Write") {
+		return set(reflect.ValueOf(&proxyWriter{e: e, val: ifc}))
 	}
 	if rt.NumMethod() == 0 {
 		switch ifc.V.(type) {
